@@ -580,7 +580,7 @@ def _job_graph(job):
     return ('ok', len(c0)) if not bad else ('bad', bad)
 
 
-TARGETED = ['scalar_matrix', 'stub_scalar', 'stub_array', 'null_in_array', 'self_ref', 'mutual_cycle', 'shared_child',
+TARGETED = ['nameless_element', 'scalar_matrix', 'stub_scalar', 'stub_array', 'null_in_array', 'self_ref', 'mutual_cycle', 'shared_child',
             'escaped_attr_name', 'escaped_type_and_name', 'unicode_array', 'empty_arrays', 'negative_time', 'case_names']
 
 
@@ -590,7 +590,18 @@ def _targeted(kind, dmx):
     V = dmx.ValueType
     r = dmx.Element('root', 'DmElement')
     uni = 'ascii'
-    if kind == 'scalar_matrix':
+    if kind == 'nameless_element':
+        # the optional `name` attribute removed, on the root, on a middle element and on the last element of the table
+        a, b = dmx.Element('a', 'T'), dmx.Element('b', 'T')
+        a['x'] = 1
+        a['y'] = 'two'
+        b['p'] = 2.5
+        b['q'] = dmx.Attribute('q', V.INT, [1, 2, 3])
+        r['kids'] = dmx.Attribute('kids', V.ELEMENT, [a, b])
+        r['z'] = True
+        for e in (r, a, b):
+            del e['name']
+    elif kind == 'scalar_matrix':
         r['m'] = dmx.Attribute('m', V.MATRIX, FrozenMatrix())
         r['ma'] = dmx.Attribute('ma', V.MATRIX, [FrozenMatrix()])
     elif kind == 'stub_scalar':
